@@ -30,8 +30,16 @@ Section Gen.
     (forall q, l <> VQ q) ->
     (p_assert_eq2 N tbl res keys l r = Continue <-> value_eqb N tbl res keys l r = true).
   Proof.
-    intros Hl. destruct l as [q|b|s]; [exfalso; apply (Hl q); reflexivity| |];
+    intros Hl. destruct l as [q|b|s|l]; [exfalso; apply (Hl q); reflexivity| | |];
       unfold p_assert_eq2; destruct (value_eqb N tbl res keys _ r); split; congruence.
+  Qed.
+
+  (* equal lists have the same length (zip-like comparisons that stop at the shorter list are excluded) *)
+  Lemma value_eqb_list_length x : forall y,
+    value_eqb N tbl res keys (VL x) (VL y) = true -> List.length x = List.length y.
+  Proof.
+    induction x as [|a x' IH]; intros [|b y']; simpl; try discriminate; [reflexivity|].
+    intros H. apply andb_true_iff in H. destruct H as [_ H]. f_equal. apply IH. exact H.
   Qed.
 
   (* quantities: assert_eq(a, b) succeeds iff a converts to b's unit and the
